@@ -415,7 +415,7 @@ pub fn uni_res(r: &huginn_net::output::FingerprintResult) -> UniRes {
 }
 
 // ---------- pcap route: drives the analyzers' own (private) per-packet path through `analyze_pcap` ----------
-fn scratch_pcap(frames: &[Vec<u8>]) -> std::path::PathBuf {
+pub fn scratch_pcap(frames: &[Vec<u8>]) -> std::path::PathBuf {
     use std::sync::atomic::{AtomicU64, Ordering};
     static N: AtomicU64 = AtomicU64::new(0);
     let dir = std::env::var("HV_SCRATCH").unwrap_or_else(|_| "/dev/shm".to_string());
